@@ -15,7 +15,7 @@ package proposal
 //@   props C01, C02, C07
 //@   probe prevIndex: proposal.Status.PrevIndex
 //@   probe txIndex: proposal.TransactionIndex
-//@   requires r != nil && proposal != nil && proposal.tracked && proposalSnapshotted(proposal) && proposalWellFormed(proposal)
+//@   requires r != nil && proposal != nil && proposal.tracked && proposalSnapshotted(proposal) && proposalWellFormed(proposal) && proposalInv(proposal)
 //@   requires proposal.Status.Phases.Abort != nil
 //@   requires proposal.Status.PrevIndex < proposal.TransactionIndex
 //@   ensures {C01,C02} aborted-advances-both: old(proposal.Status.Phases.Abort.State) == configapi.ProposalAbortPhase_ABORTING && proposal.Status.Phases.Abort.State == configapi.ProposalAbortPhase_ABORTED ==> storedCfgCommitted >= proposal.TransactionIndex && storedCfgApplied >= proposal.TransactionIndex
@@ -30,7 +30,7 @@ package proposal
 
 //@ func (*Reconciler).reconcileInitialize
 //@   props C02, C07
-//@   requires r != nil && proposal != nil && proposal.tracked && proposalSnapshotted(proposal) && proposalWellFormed(proposal)
+//@   requires r != nil && proposal != nil && proposal.tracked && proposalSnapshotted(proposal) && proposalWellFormed(proposal) && proposalInv(proposal)
 //@   requires proposal.Status.Phases.Initialize != nil
 //@   ensures {C02} link-in-log-order: proposal.Status.PrevIndex != old(proposal.Status.PrevIndex) ==> old(proposal.Status.PrevIndex) == 0 && proposal.Status.PrevIndex == readCfgProposed && readCfgProposed < proposal.TransactionIndex
 //@   ensures {C02} initialized-only-when-proposed: initState(proposal) == configapi.ProposalInitializePhase_INITIALIZED && old(initState(proposal)) == configapi.ProposalInitializePhase_INITIALIZING ==> readCfgOK && readCfgProposed >= proposal.TransactionIndex
@@ -39,7 +39,7 @@ package proposal
 
 //@ func (*Reconciler).reconcileValidate
 //@   props C01, C02, C05, C06, C07
-//@   requires r != nil && proposal != nil && proposal.tracked && proposalSnapshotted(proposal) && proposalWellFormed(proposal)
+//@   requires r != nil && proposal != nil && proposal.tracked && proposalSnapshotted(proposal) && proposalWellFormed(proposal) && proposalInv(proposal)
 //@   requires proposal.Status.Phases.Validate != nil
 //@   ensures {C02} waits-for-predecessor: validateState(proposal) != old(validateState(proposal)) ==> readCfgOK && (proposal.Status.PrevIndex == 0 || readCfgCommitted == proposal.Status.PrevIndex)
 //@   ensures {C01,C05,C06} validation-writes-no-config: cfgValueWrites == old(cfgValueWrites) && cfgStatusWrites == old(cfgStatusWrites) && cfgCreates == old(cfgCreates) && deviceSetCalls == old(deviceSetCalls)
@@ -50,7 +50,7 @@ package proposal
 
 //@ func (*Reconciler).reconcileCommit
 //@   props C01, C02, C07
-//@   requires r != nil && proposal != nil && proposal.tracked && proposalSnapshotted(proposal) && proposalWellFormed(proposal)
+//@   requires r != nil && proposal != nil && proposal.tracked && proposalSnapshotted(proposal) && proposalWellFormed(proposal) && proposalInv(proposal)
 //@   requires proposal.Status.Phases.Commit != nil
 //@   requires proposal.Status.PrevIndex < proposal.TransactionIndex
 //@   ensures {C02,C07} merge-only-at-predecessor: cfgValueWrites > old(cfgValueWrites) ==> cfgValueWrites == old(cfgValueWrites) + 1 && readCfgOK && readCfgCommitted == proposal.Status.PrevIndex && old(commitState(proposal)) == configapi.ProposalCommitPhase_COMMITTING
@@ -62,7 +62,7 @@ package proposal
 
 //@ func (*Reconciler).reconcileApply
 //@   props C02, C04, C07, C10, C11
-//@   requires r != nil && proposal != nil && proposal.tracked && proposalSnapshotted(proposal) && proposalWellFormed(proposal)
+//@   requires r != nil && proposal != nil && proposal.tracked && proposalSnapshotted(proposal) && proposalWellFormed(proposal) && proposalInv(proposal)
 //@   requires proposal.Status.Phases.Apply != nil
 //@   requires proposal.Status.PrevIndex < proposal.TransactionIndex
 //@   ensures {C02,C07} apply-in-order: deviceSetCalls > old(deviceSetCalls) ==> deviceSetCalls == old(deviceSetCalls) + 1 && readCfgOK && readCfgApplied < proposal.TransactionIndex && (proposal.Status.PrevIndex == 0 || readCfgApplied == proposal.Status.PrevIndex) && old(applyState(proposal)) == configapi.ProposalApplyPhase_APPLYING
@@ -72,8 +72,17 @@ package proposal
 //@   ensures {C02,C07} applied-only-if-index-reached: applyState(proposal) == configapi.ProposalApplyPhase_APPLIED && old(applyState(proposal)) == configapi.ProposalApplyPhase_APPLYING ==> storedCfgApplied >= proposal.TransactionIndex
 //@   ensures {C02} apply-writes-no-values: cfgValueWrites == old(cfgValueWrites) && cfgCreates == old(cfgCreates)
 //@   ensures {C11} transient-not-failed: deviceSetCalls > old(deviceSetCalls) && (deviceCode == codes.Unavailable || deviceCode == codes.Canceled || deviceCode == codes.DeadlineExceeded || deviceCode == codes.PermissionDenied) ==> applyState(proposal) == configapi.ProposalApplyPhase_APPLYING && cfgStatusWrites == old(cfgStatusWrites) && proposalStatusWrites == old(proposalStatusWrites) && (deviceCode != codes.PermissionDenied ==> err != nil)
+//@   ensures {C11} refusal-attempts-record: deviceSetCalls > old(deviceSetCalls) && deviceCode != codes.OK && deviceCode != codes.Unavailable && deviceCode != codes.Canceled && deviceCode != codes.DeadlineExceeded && deviceCode != codes.PermissionDenied ==> cfgStatusWrites == old(cfgStatusWrites) + 1
 //@   ensures {C11} refusal-recorded: deviceSetCalls > old(deviceSetCalls) && err == nil && deviceCode != codes.OK && deviceCode != codes.Unavailable && deviceCode != codes.Canceled && deviceCode != codes.DeadlineExceeded && deviceCode != codes.PermissionDenied ==> applyState(proposal) == configapi.ProposalApplyPhase_FAILED && proposal.Status.Phases.Apply.Failure != nil && proposal.Status.Phases.Apply.Failure.Type == failureOfCode(deviceCode) && storedCfgApplied == proposal.TransactionIndex
 //@   ensures {C11} failed-only-on-refusal: applyState(proposal) == configapi.ProposalApplyPhase_FAILED && old(applyState(proposal)) == configapi.ProposalApplyPhase_APPLYING && deviceSetCalls > old(deviceSetCalls) ==> deviceCode != codes.OK && deviceCode != codes.Unavailable && deviceCode != codes.Canceled && deviceCode != codes.DeadlineExceeded && deviceCode != codes.PermissionDenied
 
 // failure class recorded for a device status code (the table of the property statement: the device's error class)
 //@ spec failureOfCode(c int) int = ite(c == codes.Unknown, configapi.Failure_UNKNOWN, ite(c == codes.NotFound, configapi.Failure_NOT_FOUND, ite(c == codes.AlreadyExists, configapi.Failure_ALREADY_EXISTS, ite(c == codes.Unauthenticated, configapi.Failure_UNAUTHORIZED, ite(c == codes.FailedPrecondition, configapi.Failure_CONFLICT, ite(c == codes.InvalidArgument, configapi.Failure_INVALID, ite(c == codes.Unimplemented, configapi.Failure_NOT_SUPPORTED, ite(c == codes.Internal, configapi.Failure_INTERNAL, configapi.Failure_UNKNOWN))))))))
+
+//@ func (*Reconciler).reconcileProposal
+//@   props C01, C02, C07
+//@   requires r != nil && proposal != nil && proposal.tracked && proposalSnapshotted(proposal) && proposalWellFormed(proposal) && proposalInv(proposal)
+//@   requires proposal.Status.PrevIndex < proposal.TransactionIndex
+//@   ensures {C01,C02} dispatch-commit-sends-nothing: old(proposal.Status.Phases.Apply) == nil ==> deviceSetCalls == old(deviceSetCalls)
+//@   ensures {C01} dispatch-abort-first: old(proposal.Status.Phases.Apply) == nil && old(proposal.Status.Phases.Abort) != nil ==> cfgValueWrites == old(cfgValueWrites)
+//@   ensures {C02} dispatch-no-merge-after-apply-started: old(proposal.Status.Phases.Apply) != nil ==> cfgValueWrites == old(cfgValueWrites)
